@@ -662,8 +662,44 @@ fn mode_c03long(args: &std::collections::HashMap<String, String>) -> Value {
         v["replay"] = json!(rp);
     }
     violations.truncate(20);
+    // A client that polls in a tight loop for a long time between two publications (state that
+    // accumulates in one reader over millions of calls): the publication that ends the idle
+    // stretch must be returned by the very next call.
+    let mut idle_streaks = 0u64;
+    for (si, streak) in [100_000u64, 1_100_000, 5_000_000, 20_000_000].iter().enumerate() {
+        if (si as u64) % nshards != shard {
+            continue;
+        }
+        let path = dir.join(format!("streak{}", si));
+        std::fs::write(&path, segment_bytes(1, 2, 1)).unwrap();
+        let mut w = new_writer(&path);
+        let cpath = CString::new(path.to_str().unwrap()).unwrap();
+        let mut r = ShmReader::new(&cpath).unwrap();
+        let mut bad = 0u64;
+        for _ in 0..*streak {
+            if let Ok(c) = r.msnapshot() {
+                if decode(c) != Decoded::Publication(1) {
+                    bad += 1;
+                }
+            }
+        }
+        idle_calls += *streak;
+        w.write(&encode(2));
+        let mut stale = 0u64;
+        for _ in 0..300 {
+            match r.msnapshot().map(decode) {
+                Ok(Decoded::Publication(2)) => {}
+                _ => stale += 1,
+            }
+        }
+        evaluations += 1;
+        idle_streaks += 1;
+        if bad > 0 || stale > 0 {
+            violations.push(json!({"sig": "stale-after-a-long-idle-stretch", "detail": format!("one reader called snapshot() {} times while nothing was published ({} of those answers were not the current record), then publication 2 completed and the writer went idle: {} of the next 300 calls did not return it", streak, bad, stale), "replay": ""}));
+        }
+    }
     let _ = std::fs::remove_dir_all(&dir);
-    json!({"evaluations": evaluations, "distinct": distinct.len(), "idle_calls": idle_calls, "wrap_crossings": wrap_crossings, "exception_cases": exception_cases, "sparse_change_checks": sparse_checks, "violations": violations, "samples": samples})
+    json!({"evaluations": evaluations, "distinct": distinct.len(), "idle_calls": idle_calls, "idle_streaks": idle_streaks, "wrap_crossings": wrap_crossings, "exception_cases": exception_cases, "sparse_change_checks": sparse_checks, "violations": violations, "samples": samples})
 }
 
 /// C18: the lock-step adversary (one complete update between the copy and the re-check of every
